@@ -10,6 +10,7 @@
 
 extern "C" {
 void afc_setup(unsigned depth);
+void afc_setup2(unsigned depth, unsigned size);
 uint32_t afc_next(uint32_t t);
 void afc_run(int i);
 int afc_run_atomic(int i);
@@ -172,6 +173,8 @@ void send_event()
 	int slot = afc_ev_claim();
 	e.claim_ret = vrt_now();
 	e.send_start = e.send_ret = 0;
+	if (slot == -2)
+		fail6("fibre_eventq_claim returned a pointer that is not the start of one of the queue's buffers");
 	if (slot < 0) {
 		s.note("fibre_eventq_claim -> NULL (queue full)");
 		s.sends.push_back(e);
@@ -307,6 +310,8 @@ extern "C" int hfc_dispatch(int idx)
 		for (int guard = 0; guard < 16; guard++) {
 			uint32_t id;
 			int slot = afc_ev_receive(&id);
+			if (slot == -2)
+				fail6("fibre_eventq_receive returned a pointer that is not the start of one of the queue's buffers");
 			if (slot < 0)
 				break;
 			s.received.push_back(id);
@@ -441,11 +446,20 @@ void h_run(Ctx &c)
 
 	vrt_reset(s.mode, choose_cb);
 	vrt_config((int)c.param("preempt", -1), every, s.mode == VRT_THREADS ? 1 : 0);
-	afc_setup(s.evdepth);
+	// now and then: events of 4096 bytes in a queue of 17-20 slots, so that later slots lie beyond 64 KiB
+	bool bigev = !fixed && c.feat(2) && t.weighted({ 15, 1 }) == 1;
+	if (bigev) {
+		s.evdepth = 17 + t.choose(4);
+		c.cls("event-slots-beyond-64-KiB");
+	}
+	afc_setup2(s.evdepth, bigev ? 4096 : 4);
 	// now and then the event queue has already carried more than 2^8 events, one at a time, before the scenario starts
 	unsigned warm = (!fixed && c.feat(2) && t.weighted({ 7, 1 }) == 1) ? 245 + (unsigned)t.choose(30) : 0;
+	if (bigev && !warm)
+		warm = 14 + (unsigned)t.choose(s.evdepth); // the scenario's events land anywhere in the ring, mostly beyond slot 15
 	if (warm) {
-		c.cls("event-queue-warmed-up (>= 245 events before the scenario)");
+		if (warm >= 245)
+			c.cls("event-queue-warmed-up (>= 245 events before the scenario)");
 		s.prelude = true;
 		for (unsigned i = 0; i < warm && !c.failed; i++) {
 			uint32_t id = 0xA0000000u | i;
